@@ -73,7 +73,49 @@ func headerVariants(t setSpec, n int) map[string]setSpec {
 }
 
 // Single runs the exhaustive single-step enumeration.
+// heightOrder: the ordering of heights every rule of the statement rests on ("newer than", "never lowers", "not above
+// the latest") is lexicographic in (revision, height); all comparison methods are checked against that definition on a grid
+// of revision numbers and heights in which the two coordinates disagree.
+func heightOrder(r *ev.Run) (evals int64) {
+	grid := []uint64{0, 1, 2, 5, 110, 1<<63 - 1, 1 << 63, 1<<64 - 1}
+	sign := func(x int64) int {
+		switch {
+		case x < 0:
+			return -1
+		case x > 0:
+			return 1
+		}
+		return 0
+	}
+	for _, r1 := range grid {
+		for _, h1 := range grid {
+			for _, r2 := range grid {
+				for _, h2 := range grid {
+					a, b := clienttypes.NewHeight(r1, h1), clienttypes.NewHeight(r2, h2)
+					want := 0
+					switch {
+					case r1 < r2 || (r1 == r2 && h1 < h2):
+						want = -1
+					case r1 > r2 || (r1 == r2 && h1 > h2):
+						want = 1
+					}
+					evals++
+					got := []bool{sign(a.Compare(b)) == want, a.LT(b) == (want < 0), a.LTE(b) == (want <= 0), a.GT(b) == (want > 0), a.GTE(b) == (want >= 0), a.EQ(b) == (want == 0)}
+					for i, ok := range got {
+						if !ok {
+							r.Violation("C07:height-order-not-lexicographic/"+[]string{"Compare", "LT", "LTE", "GT", "GTE", "EQ"}[i], fmt.Sprintf("%s vs %s: want sign %d", a, b, want), map[string]interface{}{"engine": "c07-heights", "a": a.String(), "b": b.String()})
+						}
+					}
+				}
+			}
+		}
+	}
+	r.Outcome("height order is lexicographic in (revision, height)")
+	return
+}
+
 func Single(r *ev.Run, tier string) (evals, nontrivial int64) {
+	evals += heightOrder(r)
 	n := 3
 	if tier == "thorough" {
 		n = 4
